@@ -402,11 +402,13 @@ def run_siblings3(ctx):
     rng = ctx.rng
     for i in range(ctx.n(320, 16000)):
         sub = FormulaGrader(variables=['x'])
-        layout = rng.choice([['x+1', 'sibling_1^2', '2*x'], ['2*x', 'x+1', 'sibling_2^2', '3*x'], ['sibling_3^2', '2*x', 'x+1']])
+        layout = rng.choice([['x+1', 'sibling_1^2', '2*x'], ['2*x', 'x+1', 'sibling_2^2', '3*x'], ['sibling_3^2', '2*x', 'x+1'],
+                             ['x+1', '2*x', 'sibling_1+sibling_2'], ['sibling_2*sibling_3', 'x+1', '2*x']])
         g = ListGrader(answers=list(layout), subgraders=sub, ordered=True)
         honest = []
         for a in layout:
-            honest.append({'x+1': 'x+1', '2*x': '2*x', '3*x': '3*x', 'sibling_1^2': '(x+1)^2', 'sibling_2^2': '(x+1)^2', 'sibling_3^2': '(x+1)^2'}[a])
+            honest.append({'x+1': 'x+1', '2*x': '2*x', '3*x': '3*x', 'sibling_1^2': '(x+1)^2', 'sibling_2^2': '(x+1)^2', 'sibling_3^2': '(x+1)^2',
+                           'sibling_1+sibling_2': '3*x+1', 'sibling_2*sibling_3': '2*x*(x+1)'}[a])
         # several submissions in a row on the same grader: the leak, if any, persists in the shared subgrader
         for rep in range(3):
             o = lib.call(ctx, g, None, list(honest))
@@ -447,8 +449,23 @@ def run_sum(ctx):
     rng = ctx.rng
     for i in range(ctx.n(480, 24000)):
         ans = {'lower': '1', 'upper': '6', 'summand': 'sin(n)^2+cos(n)^2+n', 'summation_variable': 'n'}
-        kind = rng.choice(['blacklist', 'whitelist', 'whitelist_none', 'required'])
+        kind = rng.choice(['blacklist', 'whitelist', 'whitelist_none', 'required', 'forbidden'])
         base = dict(answers=ans, samples=2, tolerance=1e-9)
+        if kind == 'forbidden':
+            # a forbidden string in ANY of the boxes (limits as well as summand)
+            forb = rng.choice(['+0', '0+', '*1'])
+            restricted = SumGrader(forbidden_strings=[forb.replace('', ' ').strip() if rng.random() < 0.3 else forb], **base)
+            twin = SumGrader(**base)
+            where = rng.choice(['summand', 'lower', 'upper'])
+            sub = {'lower': '1', 'upper': '6', 'summand': 'sin(n)^2+cos(n)^2+n', 'summation_variable': 'n'}
+            dress = {'+0': lambda t: '%s+0' % t, '0+': lambda t: '0+%s' % t, '*1': lambda t: '(%s)*1' % t}[forb]
+            sub[where] = dress(sub[where])
+            formula = [sub['lower'], sub['upper'], sub['summand'], 'n']
+            wit = {'grader': 'SumGrader', 'restriction': 'forbidden_strings', 'forbidden': forb, 'where': where}
+            judge_cheat(ctx, 'sum_blacklist', twin, restricted, repr(formula), ('InvalidInput',), wit,
+                        call=lambda g: lib.call(ctx, g, None, list(formula)))
+            ctx.count('sum_forbidden_string_cases')
+            continue
         if kind == 'blacklist':
             restricted = SumGrader(blacklist=['tan'], **base)
         elif kind == 'whitelist':
